@@ -93,7 +93,11 @@ def classify(prop, recs):
             broken.append(rec)
             continue
         wf, a, b = v[0] == "true", v[1] == "true", v[2] == "true"
-        rec["kf"] = v[3] if len(v) > 3 else "0%N"
+        rec["kf"] = 0
+        for i, tok in enumerate(v[3:]):
+            if tok == "true":
+                rec["kf"] = i + 1      # index of the known-finding class whose predicate holds
+                break
         if not b:
             viol.append(rec)
         elif not wf:
@@ -151,10 +155,10 @@ def main(prop_name, tier, seed, replay=None):
 
     reported_known = set()
     for rec in viol:
-        kf = rec.get("kf", "0%N")
+        kf = rec.get("kf", 0)
         hit = None
         for k in known:
-            if k.get("kf_code") and kf == "%d%%N" % k["kf_code"]:
+            if k.get("kf_code") and kf == k["kf_code"]:
                 hit = k
         if hit:
             if hit["id"] not in reported_known:
